@@ -32,6 +32,7 @@ import (
 	"sort"
 	"strings"
 	"sync/atomic"
+	"time"
 
 	"github.com/btcsuite/btcd/wire"
 
@@ -595,13 +596,26 @@ func main() {
 	var done int64
 	capped := false
 	res := make([]*failer, len(todo))
+	var hung int32
 	par.Go(len(todo), func(i int) {
-		if r.Expired() {
+		if r.Expired() || atomic.LoadInt32(&hung) != 0 {
 			capped = true
 			return
 		}
-		res[i] = x.run(todo[i], filepath.Join(scratch, fmt.Sprintf("s%d", i)))
-		atomic.AddInt64(&done, 1)
+		// a scenario normally takes milliseconds; one that does not return (a Close waiting for a
+		// lock that is never released, ...) is reported as a hang and ends the run
+		ch := make(chan *failer, 1)
+		go func() { ch <- x.run(todo[i], filepath.Join(scratch, fmt.Sprintf("s%d", i))) }()
+		select {
+		case f := <-ch:
+			res[i] = f
+			atomic.AddInt64(&done, 1)
+		case <-time.After(120 * time.Second):
+			atomic.StoreInt32(&hung, 1)
+			f := &failer{sc: todo[i]}
+			f.fail("hang", "the scenario did not finish within 120 s (a database call never returned)")
+			res[i] = f
+		}
 	})
 	for i, f := range res {
 		if f != nil {
